@@ -442,6 +442,63 @@ def _shadow_interleaved_replay(case):
     return core.result(v)
 
 
+def _inherit_case(parents, inheritor):
+    """class `inheritor` does not declare `aliases`: it shares its parent's set by inheritance, so
+    it shares every alias of the parent and, being created later, must win them."""
+    root = _fresh_root()
+    classes = []
+    for i, p in enumerate(parents):
+        base = root if p == -1 else classes[p]
+        body = {} if i == inheritor else {"aliases": {"u%d" % i}}
+        classes.append(type("K%d" % i, (base,), body))
+    viol = []
+    evals = nt = 0
+    for a in range(len(parents)):
+        if a == inheritor:
+            continue
+        alias = "u%d" % a
+        carriers = [i for i, c in enumerate(classes) if alias in c.aliases]
+        for qi in [-1] + list(range(len(parents))):
+            q = root if qi == -1 else classes[qi]
+            cand = [c for c in carriers if qi == -1 or qi in _chain(parents, c)]
+            evals += 1
+            r = computers.call(q.from_alias, alias)
+            if not cand:
+                ok = r[0] == "exc" and r[1] == "ValueError"
+            else:
+                nt += int(len(cand) > 1)
+                ok = r[0] == "ok" and type(r[1]) is classes[max(cand)]
+            if not ok:
+                viol.append(core.violation(
+                    dict(what="shadowing", inherited_aliases=True,
+                         got=("parent" if r[0] == "ok" and cand and type(r[1]) is classes[min(cand)] else
+                              ("exception:" + r[1] if r[0] != "ok" else "other"))),
+                    "parents %r, K%d inherits `aliases` from K%d without redeclaring it; %s.from_alias(%r) "
+                    "gave %s, carriers created in order %r" % (
+                        parents, inheritor, parents[inheritor], "root" if qi == -1 else "K%d" % qi, alias,
+                        _show(r), cand), dict(parents=parents, inheritor=inheritor)))
+                return viol, evals, nt
+    return viol, evals, nt
+
+
+def _inherit_point(parents):
+    viol, evals, nt = [], 0, 0
+    for inh in range(len(parents)):
+        if parents[inh] == -1:
+            continue  # the root carries no alias to inherit
+        v, e, n = _inherit_case(parents, inh)
+        viol.extend(v[:1] if viol else v)
+        evals += e
+        nt += n
+    return core.result(viol[:3], evals=evals, nontrivial_count=nt, obs=[len(parents), len(viol) == 0],
+                       sample=dict(parents=parents))
+
+
+def _inherit_replay(case):
+    v, _, _ = _inherit_case(case["parents"], case["inheritor"])
+    return core.result(v)
+
+
 # ---------------------------------------------------------------- from_arg
 
 MAPPING_TYPES = ("dict", "OrderedDict", "MappingProxyType")
@@ -535,6 +592,28 @@ def _from_arg_harness(mt):
     r = computers.call(afs, root, _as_mapping(mt, {"alias": "nope", "name": "k"}))
     if not (r[0] == "exc" and r[1] == "ValueError"):
         bad("unknown_alias", "{'alias': 'nope', 'name': 'k'} gave %s" % _show(r), "map_unknown")
+    # an 'alias' that is present but falsy still takes precedence over 'name' (and is unknown)
+    for scen, m in (("empty_alias_and_name", {"alias": "", "name": "k"}),
+                    ("empty_alias_only", {"alias": ""}),
+                    ("empty_name_only", {"name": ""})):
+        n += 1
+        r = computers.call(afs, root, _as_mapping(mt, m))
+        if not (r[0] == "exc" and r[1] == "ValueError"):
+            bad("falsy_alias", "%r gave %s, expected ValueError (the alias '' is unknown)" % (m, _show(r)), scen)
+    # call history: a string means "default arguments" every time, whatever happened to objects
+    # built from the same string before
+    n += 1
+    r1 = computers.call(afs, root, "k")
+    if r1[0] == "ok":
+        r1[1].x = "scribbled"
+        r1[1].name = "scribbled"
+        r2 = computers.call(afs, root, "k")
+        if not (r2[0] == "ok" and type(r2[1]) is K and r2[1].x == 0 and r2[1].name is None):
+            bad("str_history", "second object built from 'k' after the first one was modified: %s x=%r" % (
+                _show(r2), getattr(r2[1], "x", None) if r2[0] == "ok" else None), "str_history")
+        r3 = computers.call(afs, root, _as_mapping(mt, {"alias": "k"}))
+        if not (r3[0] == "ok" and r3[1].x == 0 and r3[1].name is None):
+            bad("str_history", "object built from {'alias': 'k'} after an earlier one was modified", "map_history")
     return viol, n
 
 
@@ -594,6 +673,22 @@ def _from_arg_library(fi, mt):
                     bad("wrong_class", "%r built %s" % (alias, type(r[1]).__name__), cls, alias, "str")
             elif not (r[0] == "ok" and type(r[1]) is cls):
                 bad("str", "%r gave %s, expected a %s" % (alias, _show(r), cls.__name__), cls, alias, "str")
+            elif not kw:
+                # call history: scribble over the first object, build from the same string again
+                n += 1
+                first = r[1]
+                fresh = computers.canon_value(vars(cls()), 1)
+                for name in list(vars(first)):
+                    try:
+                        setattr(first, name, "scribbled")
+                    except Exception:
+                        pass
+                r2 = computers.call(afs, fam, alias)
+                if not (r2[0] == "ok" and type(r2[1]) is cls and r2[1] is not first
+                        and computers.canon_value(vars(r2[1]), 1) == fresh):
+                    bad("str_history", "%r: the second object built from this string after the first was "
+                        "modified is not a default %s: %s" % (alias, cls.__name__, _show(r2)), cls, alias,
+                        "str_history")
             for key in ("alias", "name"):
                 n += 1
                 nt += 1
@@ -854,6 +949,12 @@ def subchecks(tier, seed):
             "is repeated, so a resolution made before a later registration must be superseded by it; "
             "non-trivial = both classes of the pair exist and are inside the queried sub-tree" % (kmax - 1),
             axes=dict(k=list(range(1, kmax))), replay=_shadow_interleaved_replay),
+        core.SubCheck(
+            "inherited_aliases", [p for k in range(2, kmax) for p in _shapes(k)], _inherit_point,
+            "the same trees with one class that does NOT declare `aliases` (it shares its parent's set by "
+            "inheritance): for every alias of the parent and every query root the latest-created carrier "
+            "inside the queried sub-tree wins; non-trivial = more than one carrier inside",
+            axes=dict(k=list(range(2, kmax))), replay=_inherit_replay),
         core.SubCheck(
             "from_arg", fa_pts, _from_arg_point,
             "alias_factory_subclass_from_arg over (private family with constructors accepting `name` | "
